@@ -250,8 +250,22 @@ def rule_status_tables(ctx):
             for n in walk(body["body"]):
                 if n.get("k") == "Lit" and isinstance(n.get("v"), str) and "SZS" in n["v"]:
                     lits.append(n["v"])
-    ok = len(lits) == 1 and lits[0].startswith("SZS status (?<status>[[:word:]]+)")
+    ok = len(lits) == 1 and re.match(r"SZS status \(\?P?<\w+>(\[\[:word:\]\]|\\w)\+\)", lits[0]) is not None
     ctx.add("TAB-STATUS", "regex", ok, "src/verifying/prover/mod.rs", "status pattern captures the word after `SZS status `: %s" % lits)
+    # the pattern as a language: every line `SZS status <word> for <word or nothing>` is a status line (a prover reading its problem from
+    # standard input reports an empty problem name), and nothing else is
+    from .. import regular as _R
+    wit = "not parsed"
+    if len(lits) == 1:
+        try:
+            got_re = _R.parse_regex(lits[0])
+            ref_re = _R.parse_regex(r"SZS status (?<status>[[:word:]]+) for (?<problem>[[:word:]]*)")
+            w1, w2 = _R.subset_witness(ref_re[0], got_re[0]), _R.subset_witness(got_re[0], ref_re[0])
+            wit = None if (w1 is None and w2 is None and len(got_re[3]) == 2) else {"a status line the pattern misses": w1, "a line the pattern takes for a status line": w2, "groups": got_re[3]}
+        except ValueError as e_:
+            wit = str(e_)
+    ctx.add("TAB-STATUS", "regex-language", wit is None, "src/verifying/prover/mod.rs",
+            "the status pattern accepts exactly `SZS status <word> for <word>?` (two groups: status, problem)", construct=wit)
     # report.status() parses stdout
     rs = fx.fn("status", impl_self="verifying::prover::vampire::VampireReport")
     fp = [hq.field_path(c["recv"]) for c in hq.calls(rs["body"], method="parse")]
